@@ -161,6 +161,29 @@ def switch_histories(label, quick):
     return out
 
 
+def shared_base_histories(label, quick):
+    """families in which several operators share one base object (the derived operator keeps self as a child):
+    a cache-writing query on the derived operator, then a query on the BASE, or on a second operator derived from it"""
+    out = []
+    if label not in ("Dense", "AddedDiag(Dense,ConstantDiag)", "Kron(Dense,Dense)", "Toeplitz"):
+        return out
+    if label in ("Kron(Dense,Dense)", "Toeplitz") and quick:
+        ders, ws, qs = [D_CORE[0], D_CORE[1], D_CORE[6]], SW_WRITERS, SW_READERS
+    else:
+        ders, ws, qs = D_CORE, SW_WRITERS, Q_CORE
+    for d in ders:
+        for w in ws:
+            for q in qs:
+                out.append([("d", d, False), ("q", w, False), ("q", q, True)])
+    d2s = [["add_jitter", 1], ["add_diagonal", 0], ["scale", 1]]
+    for d in [["add_jitter", 0], ["add_diagonal", 1], ["scale", 0], ["transpose"]]:
+        for w in ws:
+            for d2 in d2s:
+                for q in SW_READERS + [["svd"], ["eigh"]]:
+                    out.append([("d", d, False), ("q", w, False), ("d", d2, True), ("q", q, False)])
+    return out
+
+
 def root_exprs(quick):
     """operator expressions (opbuild JSON) of the root objects: (label, expr, exact-universe?)"""
     from . import opbuild
@@ -314,8 +337,9 @@ def run_history(expr, events, want_fresh=True):
                             same = same_factor(ans, fans)
                             stp["method_same_as_fresh"] = same
                             if not same:
-                                transparent = False
-                                stp["why"] = "valid, but not the %s factor a fresh object returns" % det
+                                stp.setdefault("extra", []).append(
+                                    ["%s:method-confused" % q[0],
+                                     "valid, but not the %s factor a fresh object returns" % det])
                 stp["transparent"] = bool(transparent)
             elif kind == "d":
                 i, d = ev[1], ev[2]
@@ -727,7 +751,7 @@ def plan(ctx, exprs):
     for label, expr in exprs:
         n0 = len(jobs)
         if ctx.quick:
-            full2 = label in ("Dense", "AddedDiag(Dense,ConstantDiag)", "AddedDiag(Dense,Diag)")
+            full2 = label in ("Dense", "AddedDiag(Dense,ConstantDiag)", "AddedDiag(Dense,Diag)", "Kron(Dense,Dense)")
             if full2:
                 for h in enum_histories(Q_CORE, D_CORE, 2):
                     jobs.append((label, expr, h))
@@ -754,6 +778,8 @@ def plan(ctx, exprs):
                         jobs.append((label, expr, [("d", d, False), ("q", c, False)]))
             for h in switch_histories(label, True):
                 jobs.append((label, expr, h))
+            for h in shared_base_histories(label, True):
+                jobs.append((label, expr, h))
             nr = 60
         else:
             L = 3 if label in ("Dense", "AddedDiag(Dense,ConstantDiag)", "AddedDiag(Dense,Diag)", "Toeplitz") else 2
@@ -763,6 +789,8 @@ def plan(ctx, exprs):
                 for c in Q_CORE:
                     jobs.append((label, expr, [("d", d, False), ("q", c, False)]))
             for h in switch_histories(label, False):
+                jobs.append((label, expr, h))
+            for h in shared_base_histories(label, False):
                 jobs.append((label, expr, h))
             nr = 600
         for _ in range(nr):
@@ -801,6 +829,7 @@ def problems_of(label, rec):
     consequences of an earlier invalid entry of the addressed object inherit its cause."""
     events = rec["events"]
     cause_of = {}          # (obj, pos) -> cause of a known bad entry
+    seeded = set()         # objects whose ("symeig", eigenvectors=True) entry was put there by a caller (event "seed")
     out = []
     for si, stp in enumerate(rec["steps"]):
         if stp.get("skipped"):
@@ -821,6 +850,11 @@ def problems_of(label, rec):
             return tgt is not None and tgt < len(prev_keys) and any(
                 k[0] == "full" and k[1] == ["str", nm] for k in prev_keys[tgt])
         had_symeig = had("symeig")
+        if tgt is not None and not had_symeig:
+            seeded.discard(tgt)
+        via = "add_to_cache-by-caller" if tgt in seeded else "library"
+        if ev[0] == "seed" and not stp.get("raised"):
+            seeded.add(tgt)
         # _choose_root_method prefers a method whose result is already cached: symeig > diagonalization > lanczos
         chosen = "symeig" if had_symeig else ("diagonalization" if had("diagonalization") else None)
         explicit = None
@@ -837,15 +871,15 @@ def problems_of(label, rec):
         choice_cause = None
         for (xc, xw) in stp.get("extra", []):
             # direct predicates about facets the model abstracts from (never arbitrated by the model)
-            out.append((si, {"cause": xc, "op": op, "fail": "answer-vs-fresh", "root": label}, xw))
+            out.append((si, {"cause": xc, "op": op, "fail": "answer-vs-fresh", "root": label,
+                             "cls": (rec.get("classes") or [])[tgt] if tgt is not None and tgt < len(rec.get("classes") or []) else None}, xw))
+        via_ = None
         if not stp["transparent"]:
-            confused = stp.get("method_same_as_fresh") is False
-            if confused:
-                cause = "%s:method-confused" % op
-            elif inherited and inherited != "kernel":
+            if inherited and inherited != "kernel":
                 cause = inherited
             elif op in ("eigh", "eigvalsh") and had_symeig:
                 cause = "%s:symeig-entry" % op
+                via_ = via
             elif by_choice and stp.get("fresh_valid") is True:
                 # the answer is invalid only because the cache made _choose_root_method pick a method whose result
                 # is invalid for this class (a fresh object picks another one)
@@ -855,7 +889,7 @@ def problems_of(label, rec):
             else:
                 cause = "%s:%s" % (op, "raised" if stp.get("raised") else "invalid-answer")
             out.append((si, {"cause": cause, "op": op, "fail": "answer", "root": label, "method": chosen,
-                             "consequence": bool(inherited) and not confused}, stp.get("why") or stp.get("exc") or ""))
+                             "consequence": bool(inherited), "via": via_}, stp.get("why") or stp.get("exc") or ""))
         cur = {}
         for (bi, bp, why) in stp["bad"]:
             kk = stp["keys"][bi][bp] if bp < 990 else ["adhoc", ["str", {999: "_q_cache", 998: "_sparse_interp_t_memo"}.get(bp, "unknown-cache-attribute")]]
@@ -1070,7 +1104,7 @@ def run(ctx):
                 # kernel hypothesis of the theorems fails, what follows from such an entry is not a cache defect
                 by_cause[key["cause"]] = by_cause.get(key["cause"], 0) + 1
                 continue
-            contradicted = idx in hard and hard[idx][1] <= si and hard[idx][2] in (3, 5)
+            contradicted = idx in hard and hard[idx][1] <= si
             if contradicted:
                 key = {"fail": "not-predicted-by-model", "op": key["op"], "root": label, "what": key["fail"],
                        "model_code": hard[idx][2]}
